@@ -509,6 +509,11 @@ impl<'l, Data> EventLoop<'l, Data> {
             }
         }
 
+        // The first error met while handling this batch. It is only reported once every event
+        // of the batch has been handled: one failing source must not make the others lose their
+        // events or their expired timers, nor skip the cleanup of a source that removed itself.
+        let mut first_error = None;
+
         for event in self.synthetic_events.drain(..).chain(events) {
             // Get the registration token associated with the event.
             let reg_token = event.token.inner.forget_sub_id();
@@ -533,12 +538,16 @@ impl<'l, Data> EventLoop<'l, Data> {
                     .inner
                     .pending_action
                     .replace(PostAction::Continue);
-                let mut ret = ret?;
-                if let PostAction::Continue = ret {
-                    ret = pending_action;
-                }
+                let ret = match ret {
+                    Ok(PostAction::Continue) => pending_action,
+                    Ok(ret) => ret,
+                    Err(err) => {
+                        first_error.get_or_insert(err);
+                        PostAction::Continue
+                    }
+                };
 
-                match ret {
+                let applied = match ret {
                     PostAction::Reregister => {
                         trace!(
                             source = reg_token.get_id(),
@@ -552,7 +561,8 @@ impl<'l, Data> EventLoop<'l, Data> {
                                 .sources_with_additional_lifecycle_events
                                 .borrow_mut(),
                             &mut TokenFactory::new(reg_token),
-                        )?;
+                        )
+                        .map(|_| ())
                     }
                     PostAction::Disable => {
                         trace!(
@@ -567,7 +577,8 @@ impl<'l, Data> EventLoop<'l, Data> {
                                 .sources_with_additional_lifecycle_events
                                 .borrow_mut(),
                             RegistrationToken::new(reg_token),
-                        )?;
+                        )
+                        .map(|_| ())
                     }
                     PostAction::Remove => {
                         trace!(source = reg_token.get_id(), "Postaction remove for source");
@@ -575,8 +586,12 @@ impl<'l, Data> EventLoop<'l, Data> {
                         {
                             entry.source = None;
                         }
+                        Ok(())
                     }
-                    PostAction::Continue => {}
+                    PostAction::Continue => Ok(()),
+                };
+                if let Err(err) = applied {
+                    first_error.get_or_insert(err);
                 }
 
                 if self
@@ -608,7 +623,10 @@ impl<'l, Data> EventLoop<'l, Data> {
             }
         }
 
-        Ok(())
+        match first_error {
+            Some(err) => Err(err),
+            None => Ok(()),
+        }
     }
 
     fn dispatch_idles(&mut self, data: &mut Data) {
